@@ -2,10 +2,14 @@
 Line protocol of the lines-next-to-floats model (C09).
   fpara (<shape>…) <text> <ws> <wb> <ow> <fs> <lh> <cbx> <width> <indent> <all> <last> <y>
      shape ::= (x y margin-width margin-height left|right)        → ((x y w h child) …)
+  fipara (<shape>…) <nodes> <ws> <wb> <ow> <fs> <lh> <cbx> <width> <indent> <all> <last> <y>
+     nodes / result as `ipara` (Drive/InlineRun): nested inline boxes next to floats
 -/
 import WpModel.Model.Wire
 import WpModel.Model.LineFloats
+import WpModel.Model.LineFloatsInline
 import WpModel.Drive.LineBreak
+import WpModel.Drive.InlineRun
 
 namespace Wp.Drive.LineFloats
 open Wp Wp.LB Wp.Floats Wp.Drive.LineBreak
@@ -24,6 +28,13 @@ def handle (cmd : String) (args : List Sx) : Option String :=
     let p : Para := { st := st, text := ← text? text, lineHeight := ← lh.rat?, cbx := ← cbx.rat?,
                       width := ← width.rat?, indent := ← indent.rat?, align := a, y := ← y.rat? }
     pure (render ((LF.paragraph (← allSome shape? shapes) p).map (fun ls => .list (ls.map outLineSx))))
+  | "fipara", [.list shapes, .list nodes, ws, wb, ow, fs, lh, cbx, width, indent, all, last, y] => do
+    let st ← style? ws wb ow fs
+    let a : AlignStyle := { alignAll := ← all.atom?.bind Align.ofCss?, alignLast := ← alignLast? last,
+                            ws := st.ws, rtl := false }
+    let p : IR.Para := { st := st, kids := ← allSome Wp.Drive.InlineRun.node? nodes, lineHeight := ← lh.rat?,
+                         cbx := ← cbx.rat?, width := ← width.rat?, indent := ← indent.rat?, align := a, y := ← y.rat? }
+    pure (render ((LFI.paragraph (← allSome shape? shapes) p).map (fun ls => .list (ls.map Wp.Drive.InlineRun.lineSx))))
   | _, _ => none
 
 end Wp.Drive.LineFloats
